@@ -16,7 +16,7 @@
 
 use crate::address;
 use crate::error::Error;
-use crate::grin_core::core::amount_to_hr_string;
+use crate::grin_core::core::{amount_to_hr_string, FeeFields};
 use crate::grin_core::libtx::{
 	build,
 	proof::{ProofBuild, ProofBuilder},
@@ -30,7 +30,7 @@ use crate::slate::Slate;
 use crate::types::*;
 use crate::util::OnionV3Address;
 use std::collections::HashMap;
-use std::convert::TryInto;
+use std::convert::{TryFrom, TryInto};
 
 /// Initialize a transaction on the sender side, returns a corresponding
 /// libwallet transaction slate with the appropriate inputs selected,
@@ -84,7 +84,9 @@ where
 	}
 
 	// Update the fee on the slate so we account for this when building the tx.
-	slate.fee_fields = fee.try_into().unwrap();
+	slate.fee_fields = fee
+		.try_into()
+		.map_err(|_| Error::Fee(format!("Invalid fee: {}", fee)))?;
 	slate.add_transaction_elements(keychain, &ProofBuilder::new(keychain), elems)?;
 
 	// Create our own private context
@@ -412,11 +414,8 @@ where
 
 	// First attempt to spend without change
 	let mut fee = tx_fee(coins.len(), 1, 1);
-	let mut total: u64 = coins.iter().map(|c| c.value).sum();
-	let mut amount_with_fee = match amount_includes_fee {
-		true => amount,
-		false => amount + fee,
-	};
+	let mut total: u64 = sum_values(&coins)?;
+	let mut amount_with_fee = add_fee(amount, fee, amount_includes_fee)?;
 
 	if total == 0 {
 		return Err(Error::NotEnoughFunds {
@@ -442,10 +441,7 @@ where
 	// We need to add a change address or amount with fee is more than total
 	if total != amount_with_fee {
 		fee = tx_fee(coins.len(), num_outputs, 1);
-		amount_with_fee = match amount_includes_fee {
-			true => amount,
-			false => amount + fee,
-		};
+		amount_with_fee = add_fee(amount, fee, amount_includes_fee)?;
 
 		// Here check if we have enough outputs for the amount including fee otherwise
 		// look for other outputs and check again
@@ -472,12 +468,13 @@ where
 			)
 			.1;
 			fee = tx_fee(coins.len(), num_outputs, 1);
-			total = coins.iter().map(|c| c.value).sum();
-			amount_with_fee = match amount_includes_fee {
-				true => amount,
-				false => amount + fee,
-			};
+			total = sum_values(&coins)?;
+			amount_with_fee = add_fee(amount, fee, amount_includes_fee)?;
 		}
+	}
+	// The fee must be representable in the slate's fee fields
+	if FeeFields::try_from(fee).is_err() {
+		return Err(Error::Fee(format!("Invalid fee: {}", fee)));
 	}
 	// If original amount includes fee, the new amount should
 	// be reduced, to accommodate the fee.
@@ -488,6 +485,24 @@ where
 		false => amount,
 	};
 	Ok((coins, total, new_amount, fee))
+}
+
+/// Sum of the values of a set of outputs, an error if it doesn't fit in a u64
+fn sum_values(coins: &[OutputData]) -> Result<u64, Error> {
+	coins
+		.iter()
+		.try_fold(0u64, |acc, c| acc.checked_add(c.value))
+		.ok_or_else(|| Error::GenericError("Total value of selected outputs overflows".into()))
+}
+
+/// Amount plus fee (unless the amount already includes it), an error on overflow
+fn add_fee(amount: u64, fee: u64, amount_includes_fee: bool) -> Result<u64, Error> {
+	match amount_includes_fee {
+		true => Ok(amount),
+		false => amount
+			.checked_add(fee)
+			.ok_or_else(|| Error::GenericError("Transaction amount plus fee overflows".into())),
+	}
 }
 
 /// Selects inputs and change for a transaction
@@ -515,12 +530,15 @@ where
 	let mut parts = vec![];
 
 	// calculate the total across all inputs, and how much is left
-	let total: u64 = coins.iter().map(|c| c.value).sum();
+	let total: u64 = sum_values(coins)?;
 
 	// if we are spending 10,000 coins to send 1,000 then our change will be 9,000
 	// if the fee is 80 then the recipient will receive 1000 and our change will be
 	// 8,920
-	let change = total - amount - fee;
+	let change = total
+		.checked_sub(amount)
+		.and_then(|c| c.checked_sub(fee))
+		.ok_or_else(|| Error::GenericError("Selected outputs don't cover amount and fee".into()))?;
 
 	// build inputs using the appropriate derived key_ids
 	if include_inputs_in_sum {
@@ -543,8 +561,14 @@ where
 			change, num_change_outputs
 		);
 
+		if num_change_outputs == 0 || change < num_change_outputs as u64 {
+			return Err(Error::GenericError(format!(
+				"Unable to split change of {} into {} change outputs",
+				change, num_change_outputs
+			)));
+		}
 		let part_change = change / num_change_outputs as u64;
-		let remainder_change = change % part_change;
+		let remainder_change = change % num_change_outputs as u64;
 
 		for x in 0..num_change_outputs {
 			// n-1 equal change_outputs and a final one accounting for any remainder
@@ -609,10 +633,13 @@ where
 	// amount, the wallet should allow going over it to satisfy what the user
 	// wants to send. So the wallet considers max_outputs more of a soft limit.
 	if eligible.len() > max_outputs {
-		for window in eligible.windows(max_outputs) {
-			let windowed_eligibles = window.to_vec();
-			if let Some(outputs) = select_from(amount, select_all, windowed_eligibles) {
-				return (max_available, outputs);
+		// (a window size of 0 is not a valid argument to windows())
+		if max_outputs > 0 {
+			for window in eligible.windows(max_outputs) {
+				let windowed_eligibles = window.to_vec();
+				if let Some(outputs) = select_from(amount, select_all, windowed_eligibles) {
+					return (max_available, outputs);
+				}
 			}
 		}
 		// Not exist in any window of which total amount >= amount.
@@ -640,18 +667,20 @@ where
 }
 
 fn select_from(amount: u64, select_all: bool, outputs: Vec<OutputData>) -> Option<Vec<OutputData>> {
-	let total = outputs.iter().fold(0, |acc, x| acc + x.value);
+	let total = outputs
+		.iter()
+		.fold(0u64, |acc, x| acc.saturating_add(x.value));
 	if total >= amount {
 		if select_all {
 			Some(outputs.to_vec())
 		} else {
-			let mut selected_amount = 0;
+			let mut selected_amount: u64 = 0;
 			Some(
 				outputs
 					.iter()
 					.take_while(|out| {
 						let res = selected_amount < amount;
-						selected_amount += out.value;
+						selected_amount = selected_amount.saturating_add(out.value);
 						res
 					})
 					.cloned()
